@@ -66,7 +66,8 @@ PROPS = {
         design_ref='DESIGN.md §11 "L05"',
     ),
     'C03': dict(
-        rules=[r_linear.rule_L04_recurrences],
+        rules=[r_linear.rule_L04_recurrences,
+               lambda ctx: r_step.s07_step_once(ctx, only_types=('DMA', 'TMA', 'DEMA', 'TEMA', 'WSMA', 'TSI', 'Vidya', 'Integral', 'ADI'), rule_id='S07r')],
         feature_sets=_sets(['default'], ['default', 'u16', 'f32']),
         rules_thorough=[on_build(r_linear.rule_L04_recurrences, 'u16'), on_build(r_linear.rule_L04_recurrences, 'f32')],
         explanation=('(L04) for EMA, RMA, WSMA, DMA, TMA, DEMA, TEMA the constructor and next() are interpreted over MIR in the affine-form domain with EXPLICIT coefficients '
@@ -75,7 +76,8 @@ PROPS = {
                      '(stage i is updated from the new value of stage i-1 and its own old value; stage 0 is the input); every stage update is, coefficient by coefficient, '
                      'alpha * previous stage + (1 - alpha) * own old value with the documented alpha (2/(n+1) for the EMA family, 1/n for RMA and WSMA); the returned value is the '
                      'documented combination of the new stage values (e1; e2; e3; 2 e1 - e2; 3 (e1 - e2) + e3). Equal one-step maps from equal initial states give, by induction '
-                     'and in exact arithmetic, the documented value at every step of every stream for every length. The table of recurrences is the text of the property, not read off the code.'),
+                     'and in exact arithmetic, the documented value at every step of every stream for every length. The table of recurrences is the text of the property, not read off the code. '
+                     '(S07r) for all the recursive methods of the property, TSI, Vidya, TR, HeikinAshi, Integral and ADI included: every inner method and window is stepped exactly once on every path of next() - a recurrence that skips a stage on some inputs (a zero momentum, an unchanged value) is not the documented one.'),
         not_decided=['TSI, Vidya, TR, HeikinAshi and the cumulative Integral / ADI: products, ratios and selections of stream values are outside the domain (Vidya and TSI are covered only by L03 / S11 / S16 under other properties)',
                      'floating-point rounding (mul_add vs separate operations): the argument is over the reals'],
         assumptions=TRUST,
